@@ -147,11 +147,19 @@ impl RFsmExpressionDatamodel {
                         // Pretty print the error
                         let msg = format!("Script Error:  {} => {} ", source, e);
                         error!("{}", msg);
+                        if handle_error {
+                            self.internal_error_execution();
+                        }
                         Err(msg)
                     }
                 }
             }
-            Err(err) => Err(err),
+            Err(err) => {
+                if handle_error {
+                    self.internal_error_execution();
+                }
+                Err(err)
+            }
         }
     }
 
@@ -562,19 +570,25 @@ impl Datamodel for RFsmExpressionDatamodel {
     fn execute(&mut self, script: &Data) -> Result<DataArc, String> {
         match self.execute_internal(script, true) {
             Ok(r) => {
-                match r.lock().unwrap().deref() {
+                let illegal = match r.lock().unwrap().deref() {
                     Data::Double(_)
                     | Data::Source(_)
                     | Data::String(_)
                     | Data::Boolean(_)
                     | Data::Null()
                     | Data::None()
-                    | Data::Integer(_) => (),
-                    Data::Array(_) => return Err("Illegal Result: Can't return array".to_string()),
-                    Data::Map(_) => return Err("Illegal Result: Can't return maps".to_string()),
-                    Data::Error(err) => return Err(err.clone()),
+                    | Data::Integer(_) => None,
+                    Data::Array(_) => Some("Illegal Result: Can't return array".to_string()),
+                    Data::Map(_) => Some("Illegal Result: Can't return maps".to_string()),
+                    Data::Error(err) => Some(err.clone()),
+                };
+                match illegal {
+                    None => Ok(r),
+                    Some(msg) => {
+                        self.internal_error_execution();
+                        Err(msg)
+                    }
                 }
-                Ok(r)
             }
             Err(err) => Err(err),
         }
